@@ -284,6 +284,21 @@ impl<'a> Lifter<'a> {
                         "RArr",
                     ));
                 }
+                ("RArr2", "real") => {
+                    self.note("L9", whole.span(), "element-wise array arithmetic");
+                    return Ok(v(format!("RArr2 {{ n: {0}.n, m: {0}.m, at: |i__: int, j__: int| ({0}.at)(i__, j__) {sym} {1} }}", a.text, b.text), "RArr2"));
+                }
+                ("real", "RArr2") => {
+                    self.note("L9", whole.span(), "element-wise array arithmetic");
+                    return Ok(v(format!("RArr2 {{ n: {1}.n, m: {1}.m, at: |i__: int, j__: int| {0} {sym} ({1}.at)(i__, j__) }}", a.text, b.text), "RArr2"));
+                }
+                ("RArr2", "RArr2") => {
+                    self.note("L9", whole.span(), "element-wise array arithmetic");
+                    return Ok(v(
+                        format!("RArr2 {{ n: {0}.n, m: {0}.m, at: |i__: int, j__: int| ({0}.at)(i__, j__) {sym} ({1}.at)(i__, j__) }}", a.text, b.text),
+                        "RArr2",
+                    ));
+                }
                 _ => {}
             }
         }
